@@ -12,7 +12,7 @@ LEVEL_NOTE = ('Trusted: Coq 8.16.1 kernel + vm_compute; no axioms (Print Assumpt
 CLAIMED = {
     'C11': dict(
         text=('Theorems over the Gallina model of deciders.py (split-independence of the per-order commission for every list of fills, '
-              'stamp-tax rule and point-in-time rate, futures schedules with the close-today split, non-negativity), all closed under the '
+              'stamp-tax rule and point-in-time rate, futures schedules with the close-today split, non-negativity, the schedule lookup of a contract - bundle entry of the contract else of the underlying, overridden by the configured entry - with frame lemmas), all closed under the '
               'global context; the model is tied to /repo on every run by (A) regenerating Gen/Costs.v from deciders.py with a fail-closed '
               'ast translator and re-proving Gen = Model, and (B) replaying every recorded trade of real back-tests (daily and minute bars) '
               'through the model inside coqc; property monitors over the same runs produce the replay when either breaks.'),
@@ -49,20 +49,23 @@ MAT = ('DefaultBarMatcher.match, the deal-price deciders and the three slippage 
 CLAIMED.update({
     'C04': dict(text='Per-order lifecycle machine: for every input sequence the events follow the protocol automaton, statuses move along legal edges, fill '
                      'bookkeeping equals the announced trades, finals are absorbing, nothing stays in the open list after the close (induction over inputs); ' + MAT,
-                technique='Coq proof (simulation of a protocol automaton, induction over inputs) + per-order correspondence', design='DESIGN.md §5 C04'),
+                technique='Coq proof (simulation of a protocol automaton, induction over inputs) + regenerated broker programs (Gen/BrokerProg.v) + per-order correspondence', design='DESIGN.md §5 C04'),
     'C05': dict(text='Inversion theorem of match_one: a fill implies a valid reference of the configured rule, price = reference moved adversely by the slippage model, '
                      'inside the band, limit respected, zero slippage => price = reference; ' + MAT,
-                technique='Coq proof (case analysis / inversion of the matcher model) + per-call correspondence', design='DESIGN.md §5 C05'),
+                technique='Coq proof (case analysis / inversion of the matcher model, broker invariants by induction) + regenerated-model equality lemmas (Gen/Slippage.v, Gen/BrokerProg.v) + per-call correspondence', design='DESIGN.md §5 C05'),
     'C06': dict(text='Theorems: no fill at limit-up/down or without volume, fill positive / within remainder / whole lots or whole remainder, accumulated turnover within '
-                     'round(volume x percent), market remainder cancelled, limit remainder rests; ' + MAT,
-                technique='Coq proof (inversion of the matcher model, floor arithmetic) + per-call correspondence', design='DESIGN.md §5 C06'),
+                     'round(volume x percent), market remainder cancelled, limit remainder rests; the matcher as a state machine over its turnover map: for every sequence of '
+                     'calls and updates the quantity traded per instrument since the last update equals the booked turnover and stays within the cap (invariant by '
+                     'induction); the cap block of match and SimulationBroker\'s methods are regenerated from the source (Gen/MatcherCap.v, Gen/BrokerProg.v) and '
+                     're-proved equal to the model; ' + MAT,
+                technique='Coq proof (inversion of the matcher model, floor arithmetic, invariant by induction over matcher calls) + regenerated-model equality lemmas + per-call and whole-run correspondence', design='DESIGN.md §5 C06'),
 })
 
 CLAIMED.update({
     'C08': dict(text='Model of the event source and the executor (Model/EventLoop.v): for every strictly increasing list of trading days the daily run equals the prescribed '
                      'sequence (BT OA BAR AT per day, one settlement between days and one after the last), clocks are monotone, minute bars are strictly increasing '
                      'whatever universe changes happen (induction over days / restarts); PRE/POST brackets and the refusal of order APIs in init / before_trading / '
-                     'after_trading are finite obligations over tables regenerated from the source on every run (Gen/ApiPhases.v); every real run\'s published event '
+                     'after_trading - also from handlers registered with subscribe_event, whose phase table and wrapper are regenerated too - are finite obligations over tables regenerated from the source on every run (Gen/ApiPhases.v); every real run\'s published event '
                      'sequence with clocks is replayed through the model inside coqc; monitors from the property text give the replay.',
                 technique='Coq proof (run = specification by induction) + regenerated finite tables + whole-run correspondence', design='DESIGN.md §5 C08'),
     'C17': dict(text='Scheduler model (Model/Scheduler.v): cache invariant for every well-formed calendar and day sequence, day rules (weekday, n-th / n-th from last '
@@ -96,7 +99,7 @@ CLAIMED.update({
                      'through the model inside coqc.',
                 technique='Coq proof (induction over mod lists, sorting lemmas) + whole-run correspondence with probe mods', design='DESIGN.md §5 C19'),
     'C18': dict(text='Analyser model (Model/Analyser.v): one record per settled day in order, total return = final net value - 1 = compounded daily returns - 1 '
-                     '(telescoping product for every positive series), benchmark return = ratio of closes (telescoping), failed run => no result (through the mod '
+                     '(telescoping product for every positive series), benchmark return = ratio of closes (telescoping) also for weighted one-instrument spellings (the weighted combination of one member is the member; only proportions matter), failed run => no result (through the mod '
                      'lifecycle model); partial: round(x, n), pandas and the real power in the annualised return are runtime - the annualised return, the trade '
                      'table and the account tables are compared by the harness only; every reported record of real runs (benchmark none / index / stock with '
                      'adjusted closes, one-day ranges, failing runs incl. failures after the last record) is replayed through the model inside coqc.',
@@ -107,11 +110,11 @@ CLAIMED.update({
     'C07': dict(text='View model (Model/View.v): every daily market-data accessor (price board, bar_dict / matcher bar, current_snapshot, the lazily read last price, '
                      'history_bars with adjustment) returns the same on any two histories that agree up to the moment (common prefix + bars dated later; in the '
                      'auction the day\'s bar may differ in everything but open / limits / volume), close-high-low are not observable before the open and in the '
-                     'auction, windows end yesterday there, adjustment uses only factor rows in effect; generic noninterference of a run whose every step reads '
-                     'the market through the view (any strategy feedback) by induction; partial: minute accessors and arbitrary attribute access are only explored '
+                     'auction, windows end yesterday there, adjustment uses only factor rows in effect; handlers registered with subscribe_event read through the phase of the event they handle (regenerated Strategy._EVENT_PHASE / wrapper, Gen/ApiPhases.v); generic noninterference of a run whose every step reads '
+                     'the market through the view (any strategy feedback) by induction; partial: minute accessors, weekly windows, bar mavg / vwap and arbitrary attribute access are only explored '
                      'by the two-world differential on the implementation; every recorded accessor call of real runs is replayed through the model on the visible '
                      'part of the history inside coqc.',
-                technique='Coq proof (prefix-agreement lemmas by induction, noninterference of the generic loop) + per-call correspondence + two-world differential',
+                technique='Coq proof (prefix-agreement lemmas by induction, noninterference of the generic loop) + regenerated handler-phase table + per-call correspondence + two-world differential',
                 design='DESIGN.md §5 C07'),
     'C13': dict(text='Process model (Model/Isolation.v): a new run rewrites the class-level switches, the environment singleton and clears the memoised results; for every '
                      'well-formed op sequence the outcome is independent of the process state left by earlier runs up to id renaming (simulation by induction); '
